@@ -632,10 +632,10 @@ theorem addRelevantTx_spec (st : State) (scopes : List Nat) (hsc : st.scopes = s
     (h : Nat) (hfresh : ∀ p ∈ st.txs, p.1 ≠ tx.id) (hcr : st.credits = specCredits scopes pre)
     (hknown : ∀ o ∈ tx.outs, ∀ k, o.key = some k → scopes.contains k.scope = true →
       k.index < st.nextOf (k.scope, k.internal))
-    (hnew : ∀ p ∈ wouts scopes tx.id tx.outs 0, spentIn (pre ++ [tx]) p.1 = false)
-    (hl : st.leased = []) (hu : st.unmined = []) :
-    ∃ us, addRelevantTx st tx h =
-        { st with txs := st.txs ++ [(tx.id, h)], credits := specCredits scopes (pre ++ [tx]), used := us } ∧
+    (hnew : ∀ p ∈ wouts scopes tx.id tx.outs 0, spentIn (pre ++ [tx]) p.1 = false) :
+    ∃ us um ls, addRelevantTx st tx h =
+        { st with txs := st.txs ++ [(tx.id, h)], credits := specCredits scopes (pre ++ [tx]), used := us,
+                  unmined := um, leased := ls } ∧
       ∀ x ∈ st.used, x ∈ us := by
   have hany : (st.txs.any fun p => p.1 == tx.id) = false := by
     rw [List.any_eq_false]
@@ -648,7 +648,8 @@ theorem addRelevantTx_spec (st : State) (scopes : List Nat) (hsc : st.scopes = s
     (st.credits.map (fun c => if tx.ins.contains c.op then { c with spent := true } else c)) st.used = r at r1 r2
   obtain ⟨cs, us⟩ := r
   simp only at r1 r2 ⊢
-  refine ⟨us, ?_, r2⟩
+  refine ⟨us, st.unmined.filter (fun t => !(t.id == tx.id) && !(t.ins.any (fun op => tx.ins.contains op))),
+    st.leased.filter (fun op => !tx.ins.contains op), ?_, r2⟩
   have hcs : cs = specCredits scopes (pre ++ [tx]) := by
     rw [r1, hcr]
     simp only [specCredits, walletOuts_append, List.map_append, List.map_map]
@@ -663,7 +664,6 @@ theorem addRelevantTx_spec (st : State) (scopes : List Nat) (hsc : st.scopes = s
       intro p hp
       rw [hnew p hp]
   rw [hcs]
-  simp only [hl, hu, List.filter_nil]
 
 /-- A transaction that does not touch the wallet leaves the expected credits unchanged. -/
 theorem specCredits_untouched (scopes : List Nat) (ops : List OutPoint) (pre : List Tx) (tx : Tx)
@@ -712,9 +712,8 @@ theorem relevantFold_spec {scopes : List Nat} {invalid : BranchId → List Nat} 
     st.credits = specCredits scopes pre →
     (∀ p ∈ st.txs, ∃ t ∈ pre, t.id = p.1) →
     (∀ k ∈ paidKeys blk, scopes.contains k.scope = true → k.index < st.nextOf (k.scope, k.internal)) →
-    st.leased = [] → st.unmined = [] →
-    (∃ ts us, (blk.filter (touches scopes (wops scopes (allTxs c)))).foldl (fun st tx => addRelevantTx st tx h) st
-        = { st with txs := ts, credits := specCredits scopes (pre ++ blk), used := us }) ∧
+    (∃ ts us um ls, (blk.filter (touches scopes (wops scopes (allTxs c)))).foldl (fun st tx => addRelevantTx st tx h) st
+        = { st with txs := ts, credits := specCredits scopes (pre ++ blk), used := us, unmined := um, leased := ls }) ∧
     (∀ x ∈ st.used, x ∈
       ((blk.filter (touches scopes (wops scopes (allTxs c)))).foldl (fun st tx => addRelevantTx st tx h) st).used) ∧
     (∀ p ∈ st.txs, p ∈
@@ -726,11 +725,11 @@ theorem relevantFold_spec {scopes : List Nat} {invalid : BranchId → List Nat} 
   intro blk
   induction blk with
   | nil =>
-    intro pre post st _ _ hcr hids _ _ _
+    intro pre post st _ _ hcr hids _
     simp only [List.filter_nil, List.foldl_nil, List.append_nil]
-    exact ⟨⟨st.txs, st.used, by rw [← hcr]⟩, fun _ h => h, fun _ h => h, hids, fun _ h => by cases h⟩
+    exact ⟨⟨st.txs, st.used, st.unmined, st.leased, by rw [← hcr]⟩, fun _ h => h, fun _ h => h, hids, fun _ h => by cases h⟩
   | cons tx rest ih =>
-    intro pre post st e hsc hcr hids hknown hl hu
+    intro pre post st e hsc hcr hids hknown
     have e' : allTxs c = (pre ++ [tx]) ++ rest ++ post := by rw [e]; simp
     have e'' : allTxs c = pre ++ tx :: (rest ++ post) := by rw [e]; simp
     have hknown' : ∀ k ∈ paidKeys rest, scopes.contains k.scope = true → k.index < st.nextOf (k.scope, k.internal) :=
@@ -744,9 +743,9 @@ theorem relevantFold_spec {scopes : List Nat} {invalid : BranchId → List Nat} 
       rw [hf]
       have hcr' : st.credits = specCredits scopes (pre ++ [tx]) := by
         rw [specCredits_untouched scopes _ pre tx hsubpre htt]; exact hcr
-      obtain ⟨⟨ts, us, q1⟩, q2, q3, q4, q5⟩ := ih (pre ++ [tx]) post st e' hsc hcr'
-        (fun p hp => by obtain ⟨t, ht, hid⟩ := hids p hp; exact ⟨t, List.mem_append_left _ ht, hid⟩) hknown' hl hu
-      refine ⟨⟨ts, us, by rw [q1]; simp⟩, q2, q3, ?_, ?_⟩
+      obtain ⟨⟨ts, us, um, ls, q1⟩, q2, q3, q4, q5⟩ := ih (pre ++ [tx]) post st e' hsc hcr'
+        (fun p hp => by obtain ⟨t, ht, hid⟩ := hids p hp; exact ⟨t, List.mem_append_left _ ht, hid⟩) hknown'
+      refine ⟨⟨ts, us, um, ls, by rw [q1]; simp⟩, q2, q3, ?_, ?_⟩
       · intro p hp; obtain ⟨t, ht, hid⟩ := q4 p hp; exact ⟨t, by simpa using ht, hid⟩
       · intro t ht htch
         rcases List.mem_cons.mp ht with rfl | ht
@@ -765,10 +764,11 @@ theorem relevantFold_spec {scopes : List Nat} {invalid : BranchId → List Nat} 
         apply hknown k _ hs
         rw [paidKeys_cons]
         exact List.mem_append_left _ (List.mem_filterMap.mpr ⟨o, ho, hk⟩)
-      obtain ⟨us1, e1, hu1⟩ := addRelevantTx_spec st scopes hsc pre tx h hfresh hcr hkn (order_at hwf e'') hl hu
+      obtain ⟨us1, um1, ls1, e1, hu1⟩ := addRelevantTx_spec st scopes hsc pre tx h hfresh hcr hkn (order_at hwf e'')
       rw [e1]
-      obtain ⟨⟨ts, us, q1⟩, q2, q3, q4, q5⟩ := ih (pre ++ [tx]) post
-        { st with txs := st.txs ++ [(tx.id, h)], credits := specCredits scopes (pre ++ [tx]), used := us1 }
+      obtain ⟨⟨ts, us, um, ls, q1⟩, q2, q3, q4, q5⟩ := ih (pre ++ [tx]) post
+        { st with txs := st.txs ++ [(tx.id, h)], credits := specCredits scopes (pre ++ [tx]), used := us1,
+                  unmined := um1, leased := ls1 }
         e' hsc rfl
         (by
           intro p hp
@@ -776,8 +776,8 @@ theorem relevantFold_spec {scopes : List Nat} {invalid : BranchId → List Nat} 
           · obtain ⟨t, ht, hid⟩ := hids p hp; exact ⟨t, List.mem_append_left _ ht, hid⟩
           · simp only [List.mem_singleton] at hp
             exact ⟨tx, by simp, by rw [hp]⟩)
-        hknown' hl hu
-      refine ⟨⟨ts, us, by rw [q1]; simp⟩, fun x hx => q2 x (hu1 x hx),
+        hknown'
+      refine ⟨⟨ts, us, um, ls, by rw [q1]; simp⟩, fun x hx => q2 x (hu1 x hx),
         fun p hp => q3 p (List.mem_append_left _ hp), ?_, ?_⟩
       · intro p hp; obtain ⟨t, ht, hid⟩ := q4 p hp; exact ⟨t, by simpa using ht, hid⟩
       · intro t ht htch
